@@ -9,7 +9,7 @@ for f in sorted(glob.glob(os.path.join(VERIF, "seeded", "*", "meta.json"))):
     def short(v):
         v = str(v)
         if v.startswith("caught"): return "yes"
-        if v.startswith("missed at first"): return "**missed at first**, yes after strengthening"
+        if v.startswith("missed at first") or v.startswith("first run: NOT caught"): return "**missed at first**, yes after strengthening"
         if v.startswith("not caught") or v.startswith("MISSED"): return "no" + (" (" + v.split("(", 1)[1] if "(" in v else "")
         return v
     res = "; ".join("%s %s" % (k, short(v)) for k, v in det.items()) if det else "not run yet"
